@@ -13,6 +13,7 @@ An *engine* is a module exposing
 
 from __future__ import annotations
 
+import copy
 import faulthandler
 import json
 import multiprocessing as mp
@@ -23,6 +24,7 @@ import subprocess
 import sys
 import time
 import traceback
+import types
 
 from . import known
 from .core import ChoiceSource, RunResult, mix
@@ -40,10 +42,90 @@ def run_seed_for(verif_seed: int, engine_name: str, run_index: int) -> int:
     return mix("run", verif_seed, engine_name, run_index)
 
 
+class _LibraryState:
+    """Module-level and class-level data of every loaded toqito module, captured before a run and
+    put back after it: whatever a run (or a mutant under test) leaves behind - a cache, a shared
+    pool, a counter - must not reach the next run executed by the same worker process, otherwise a
+    failure would depend on which runs happened to precede it and would not replay."""
+
+    SKIP = (types.ModuleType, types.FunctionType, types.BuiltinFunctionType, type)
+
+    def _targets(self):
+        for name, mod in list(sys.modules.items()):
+            if mod is None or not (name == "toqito" or name.startswith("toqito.")):
+                continue
+            yield mod
+            for v in list(vars(mod).values()):
+                if isinstance(v, type) and getattr(v, "__module__", "").startswith("toqito."):
+                    yield v
+
+    def _data(self, obj):
+        out = {}
+        for k, v in list(vars(obj).items()):
+            if k.startswith("__"):
+                continue
+            if isinstance(obj, types.ModuleType):
+                if isinstance(v, self.SKIP) or callable(v):
+                    continue
+            elif callable(v) or isinstance(v, (classmethod, staticmethod, property)):
+                continue
+            out[k] = v
+        return out
+
+    def __enter__(self):
+        self.saved = []
+        for obj in self._targets():
+            data = self._data(obj)
+            copies = {}
+            for k, v in data.items():
+                if isinstance(v, (dict, list, set, bytearray)):
+                    try:
+                        copies[k] = copy.deepcopy(v)
+                    except Exception:
+                        pass
+            self.saved.append((obj, data, copies))
+        return self
+
+    def __exit__(self, *a):
+        seen = set()
+        for obj, data, copies in self.saved:
+            seen.add(id(obj))
+            now = self._data(obj)
+            for k in now:
+                if k not in data:
+                    try:
+                        delattr(obj, k)
+                    except Exception:
+                        pass
+            for k, v in data.items():
+                if k in copies:
+                    # undo in-place mutation of a module-level container
+                    if isinstance(v, dict):
+                        v.clear()
+                        v.update(copies[k])
+                    elif isinstance(v, list):
+                        v[:] = copies[k]
+                    elif isinstance(v, set):
+                        v.clear()
+                        v.update(copies[k])
+                if now.get(k, None) is not v:
+                    try:
+                        setattr(obj, k, v)
+                    except Exception:
+                        pass
+
+
 def execute(engine, cs: ChoiceSource, tier: str, run_index: int) -> RunResult:
-    """One simulated run.  Library exceptions are the engine's business; an
-    exception escaping here is a harness error."""
-    return engine.run(cs, tier, run_index)
+    """One simulated run, started from pristine process-global state.  Library exceptions are the
+    engine's business; an exception escaping here is a harness error."""
+    import random as _pyrandom
+
+    import numpy as _np
+
+    _np.random.seed(0)
+    _pyrandom.seed(0)
+    with _LibraryState():
+        return engine.run(cs, tier, run_index)
 
 
 def unknown_violations(violations, prop):
